@@ -70,11 +70,11 @@ def showActions (a : List (Nat × List PTItem)) : String :=
 
 def showTree (t : List TreeEv) : String :=
   if t.isEmpty then "-" else
-  String.join (t.map (fun
-    | .open_ none => "(r"
-    | .open_ (some n) => s!"({n}"
-    | .close => ")"
-    | .tok id => s!"t{id}."))
+  ",".intercalate (t.map (fun
+    | .open_ none => "or"
+    | .open_ (some n) => s!"o{n}"
+    | .close => "c"
+    | .tok id => s!"t{id}"))
 
 def showLLRes : Res → String
   | .ok => "ok"
